@@ -143,7 +143,11 @@ func (t *FnTrans) call(in ssa.Instruction, c *ssa.CallCommon, res ssa.Value) {
 		sk = sk[i+1:]
 	}
 	t.ghostAt("before call " + sk)
-	defer t.ghostAt("after call " + sk)
+	defer func() {
+		t.lastCallRes = res
+		t.ghostAt("after call " + sk)
+		t.lastCallRes = nil
+	}()
 	for _, a := range c.Args {
 		if t.sortOf(a.Type()) == "Int" {
 			if _, isInt := intInfoOf(t.resolve(a.Type())); !isInt {
@@ -704,6 +708,27 @@ func (t *FnTrans) modItem(x *Expr, env *Env, f func(comp, sort, ref string)) {
 		t.modPtr(p, f)
 		return
 	case x.Op == "sel":
+		// pkg.Type.field: whole component of a type of another package
+		if a := x.Args[0]; a.Op == "sel" && a.Args[0].Op == "id" {
+			if _, isVar := env.vars[a.Args[0].Name]; !isVar {
+				if pkg := t.eng.findPkg(a.Args[0].Name, env.pkg); pkg != nil {
+					if o := pkg.Scope().Lookup(a.Name); o != nil {
+						if tn, ok := o.(*types.TypeName); ok {
+							if st, ok := tn.Type().Underlying().(*types.Struct); ok {
+								if path, _ := findField(st, x.Name); path != nil {
+									p := &Ptr{Kind: "obj", Ref: "0", T: tn.Type()}
+									for _, i := range path {
+										p = t.fieldPtr(p, i)
+									}
+									t.modPtrWhole(p, f)
+									return
+								}
+							}
+						}
+					}
+				}
+			}
+		}
 		// Type.field (whole component) or obj.field
 		if x.Args[0].Op == "id" {
 			if _, isVar := env.vars[x.Args[0].Name]; !isVar {
